@@ -101,6 +101,10 @@ type c15State struct {
 	order  []int                 // model: pool indices in insertion order
 	vals   map[int]reflect.Value // model: pool index -> element pointer
 	st     *execStats
+	// a replica that follows the tree only through DiffWithAtomic notifications, synced at
+	// "sync-diff" operations (i.e. less often than every call)
+	synced  ygot.GoStruct
+	replica ygot.GoStruct
 }
 
 func (s *c15State) om() reflect.Value { return s.parent.Elem().Field(s.t.Field) }
@@ -252,7 +256,7 @@ func without(order []int, i int) []int {
 	return out
 }
 
-var c15OpsLegal = []string{"appendnew", "appendnew", "append", "append", "delete", "delete", "get", "keys", "values", "len", "getorcreate", "rt-json", "rt-gnmi", "rt-copy"}
+var c15OpsLegal = []string{"appendnew", "appendnew", "append", "append", "delete", "delete", "get", "keys", "values", "len", "getorcreate", "rt-json", "rt-gnmi", "rt-copy", "sync-diff", "sync-diff", "move-to-end", "move-to-end"}
 var c15OpsFault = []string{"appendnew", "append", "append-nilkey", "append-nilelem", "delete", "nilrecv", "appendnew", "append"}
 
 func c15Exec(c *Case, generate bool) (*Violation, *execStats) {
@@ -268,6 +272,8 @@ func c15Exec(c *Case, generate bool) (*Violation, *execStats) {
 	if len(s.pool) < 2 {
 		panic("C15: key pool too small for " + t.String())
 	}
+	s.synced = model.Clone(s.root.Interface()).(ygot.GoStruct)
+	s.replica = model.Clone(s.root.Interface()).(ygot.GoStruct)
 	st.logf("target %s pool %v", t, poolStrs(s.pool))
 	nops := c.NOps
 	if !generate {
@@ -291,6 +297,14 @@ func c15Exec(c *Case, generate bool) (*Violation, *execStats) {
 			return v, st
 		}
 		st.logf("%d %s -> order %v", i, op, s.order)
+	}
+	// every history ends with a sync of the replica, so that a reordering which happened
+	// since the last sync (e.g. delete then re-append) has to come through the diff
+	if !t.nestedInOrdered() {
+		if v := c15SyncDiff(s); v != nil {
+			st.logf("final sync-diff -> VIOLATION %s", v.Oracle)
+			return v, st
+		}
 	}
 	return nil, st
 }
@@ -337,6 +351,13 @@ func c15Draw(r *simrt.Rng, s *c15State, faults bool) Op {
 		op.A["via"] = via
 	case "delete", "get":
 		op.A["key"] = strconv.Itoa(pi)
+		op.A["via"] = via
+	case "move-to-end":
+		// delete a present key that is not last and append it again
+		if len(s.order) < 2 {
+			return Op{K: "appendnew", A: map[string]string{"key": strconv.Itoa(pi), "via": via}}
+		}
+		op.A["key"] = strconv.Itoa(s.order[r.Intn(len(s.order)-1)])
 		op.A["via"] = via
 	}
 	if len(op.A) == 0 {
@@ -571,6 +592,22 @@ func c15Apply(s *c15State, op Op) *Violation {
 		if k.Len() != 0 || v.Len() != 0 || l != 0 || !g.IsNil() || del {
 			return violation("C15", "model-mismatch", sigp+"nilrecv", "nil ordered map is not empty: keys=%d values=%d len=%d", k.Len(), v.Len(), l)
 		}
+	case "move-to-end":
+		if !present {
+			return nil
+		}
+		if v := c15Apply(s, Op{K: "delete", A: map[string]string{"key": op.arg("key"), "via": op.arg("via")}}); v != nil {
+			return v
+		}
+		if v := c15Apply(s, Op{K: "appendnew", A: map[string]string{"key": op.arg("key"), "via": op.arg("via")}}); v != nil {
+			return v
+		}
+		s.st.Probes["moved_to_end"]++
+	case "sync-diff":
+		if t.nestedInOrdered() {
+			return nil
+		}
+		return c15SyncDiff(s)
 	case "rt-json", "rt-gnmi", "rt-copy":
 		if op.K == "rt-gnmi" && t.nestedInOrdered() {
 			// ygot documents nested ordered lists as unsupported by TogNMINotifications
@@ -666,5 +703,42 @@ func c15RoundTrip(s *c15State, kind string) *Violation {
 	if d := model.DiffFlat(before.Flat(), after.Flat(), 5); len(d) > 0 {
 		return violation("C15", "roundtrip", sig, "%s changed the leaf set: %v", kind, d)
 	}
+	return nil
+}
+
+// c15SyncDiff brings the replica up to date with the notifications DiffWithAtomic produces
+// for (last synced state, current state) and compares the order of the list.
+func c15SyncDiff(s *c15State) *Violation {
+	p := s.t.Pkg
+	sch := p.Schema().RootSchema()
+	sig := "C15:" + s.t.Kind2() + ":sync-diff"
+	cur := s.root.Interface().(ygot.GoStruct)
+	var err error
+	if pe := callSUT(func() {
+		ns, e := ygot.DiffWithAtomic(s.synced, cur)
+		if e != nil {
+			err = e
+			return
+		}
+		schema := &ytypes.Schema{Root: s.replica, SchemaTree: p.Schema().SchemaTree, Unmarshal: p.Unmarshal}
+		err = ytypes.UnmarshalNotifications(schema, ns)
+		s.replica = schema.Root.(ygot.GoStruct)
+	}); pe != nil {
+		return violation("C15", "panic", "C15:panic:sync-diff", "DiffWithAtomic / UnmarshalNotifications panicked: %v", pe.v)
+	}
+	if err != nil {
+		return violation("C15", "roundtrip", sig, "syncing a replica with DiffWithAtomic failed: %v", err)
+	}
+	want := model.Walk(cur, sch, "")
+	got := model.Walk(s.replica, sch, "")
+	lp := s.listPath(want)
+	if fmt.Sprint(want.ListKeys[lp]) != fmt.Sprint(got.ListKeys[lp]) {
+		return violation("C15", "order-lost", sig, "after syncing with DiffWithAtomic the replica's %s is %v, the list is %v", lp, got.ListKeys[lp], want.ListKeys[lp])
+	}
+	if d := model.DiffFlat(want.Flat(), got.Flat(), 5); len(d) > 0 {
+		return violation("C15", "roundtrip", sig, "after syncing with DiffWithAtomic the replica differs: %v", d)
+	}
+	s.synced = model.Clone(cur).(ygot.GoStruct)
+	s.st.Probes["replica_synced_by_diff"]++
 	return nil
 }
